@@ -1,7 +1,7 @@
 """C09 - sync makes every target agree with the declared truth."""
 from vf.props import deductive, sync_common as S
 
-KEYS = ["doctrans.conformance:_conform_filename", "vf.contracts.laws:replace_at_location", "doctrans.ast_utils:RewriteAtQuery.generic_visit", "doctrans.ast_utils:get_function_type", "doctrans.conformance:ground_truth", "doctrans.emit:class_"]
+KEYS = ["doctrans.pure_utils:strip_split", "doctrans.conformance:_conform_filename", "vf.contracts.laws:replace_at_location", "doctrans.ast_utils:RewriteAtQuery.generic_visit", "doctrans.ast_utils:get_function_type", "doctrans.conformance:ground_truth", "doctrans.emit:class_"]
 
 
 def _coverage(ded, results, n_ok, what, bound):
